@@ -151,7 +151,7 @@ def expand_threads(threads, ids):
     return out
 
 
-def merge(per_thread, schedule, t0=0x10000001, dts=None):
+def merge(per_thread, schedule, t0=0x10000001, dts=None, tsmode=None):
     """The scheduler: step i lets runnable[schedule[i] % len(runnable)] emit its next record; an exhausted schedule
     means choice 0 (the lowest-indexed runnable thread runs on).  Returns the merged record list with timestamps
     ('ts') and the index of the emitting thread ('th')."""
@@ -173,6 +173,16 @@ def merge(per_thread, schedule, t0=0x10000001, dts=None):
         d = dts[step % len(dts)] if dts else 3
         ts += d
         step += 1
+    if tsmode:
+        # per-CPU buffers are merged by the kernel, and a merged dump is not always in timestamp order:
+        #  'jitter' = unique but non-monotone timestamps; 'ties' = neighbouring records share a tick
+        kind, vals = tsmode[0], tsmode[1]
+        for i, rec in enumerate(out):
+            v = vals[i % len(vals)] if vals else 0
+            if kind == 'jitter':
+                rec['ts'] = t0 + 64 + 16 * (i + v) + (i % 16)
+            elif kind == 'ties':
+                rec['ts'] = t0 + (i // (2 + (v % 3)))
     return out
 
 
